@@ -82,6 +82,9 @@ def _run_frontends(items):
         qtext = engine.render_query(case, engine.Spelling(ec.case_key(case)), 'py')
         exp = case['expect']
         want_err = exp['err'][0]['cls'] if exp['err'] else None
+        if (exp.get('alt') or {}).get('has'):
+            out.append((tid, sigs, clis, nruns))     # two acceptable outcomes (RefAlt): compared by the engine checks, not per front-end
+            continue
         A = engine.table_py(case['A'])
         B = engine.table_py(case['B'])
         joined = case['q']['join'] != 'none'
@@ -272,6 +275,9 @@ def _shared_names(items):
         qtext = engine.render_query(c2, engine.Spelling(ec.case_key(case) + 'shared'), 'py')
         exp = case['expect']
         want_err = exp['err'][0]['cls'] if exp['err'] else None
+        if (exp.get('alt') or {}).get('has'):
+            out.append((tid, sigs, nruns))
+            continue
         want_hdr = [ren.get(h, h) for h in exp['hdr']] if exp['hashdr'] and exp['hdr'] else None
         A = engine.table_py(case['A'])
         B = engine.table_py(case['B'])
